@@ -10,7 +10,12 @@
 (* The state machine appends one leaf at a time with the incremental rule  *)
 (* of RegularMerkleTree.Append; the invariants say incremental = batch.    *)
 (* Mode "subsets" has one state per (n, S): the inputs of the proof/update *)
-(* checks (all non-empty leaf subsets of all lists up to MaxSub leaves).   *)
+(* checks (all non-empty leaf subsets of all lists up to MaxSub leaves,    *)
+(* and the deterministic subset SHAPES of the longer lists).               *)
+(* Mode "hist" is the tree as an object with a history: Append, Update of  *)
+(* a leaf set, Reload from storage, over lists of VALUES (repeated, empty, *)
+(* 32-byte and long values included); leaves are V(v) there and the        *)
+(* harness maps the value ids to byte strings.                             *)
 (***************************************************************************)
 EXTENDS Integers, Sequences, FiniteSets, SequencesExt, TLC, Json
 
@@ -18,13 +23,23 @@ CONSTANTS BigN,     \* sizes mode: the walk continues up to BigN (0: stop at Max
                     \* two (where the append path collapses) and a sparse sample are printed for the replay
           MaxN,     \* sizes 0..MaxN
           MaxSub,   \* subsets mode: list lengths 1..MaxSub
-          Mode      \* "sizes" | "subsets"
+          Mode,     \* "sizes" | "subsets" | "both" (sizes and subsets in one run) | "hist"
+          ShapeMax, \* subsets mode: subset shapes for every list length MaxSub+1..ShapeMax ...
+          ShapeBig, \* ... and for 2^k-1, 2^k, 2^k+1 (2^k >= 64) up to ShapeBig
+          HStart,   \* hist mode: set of initial list lengths
+          HMaxN,    \* hist mode: lists do not grow beyond HMaxN leaves
+          HDepth,   \* hist mode: operations per history
+          RefreshPath  \* hist mode, implementation shape: Update recomputes the append path of the modified list (TRUE); FALSE
+                       \* is the control (Update keeps the old path): HPathIsDecl / HRootIsBatch must be violated
 
-VARIABLES n, path, root, sub
-vars == <<n, path, root, sub>>
+VARIABLES n, path, root, sub,
+          list,     \* hist mode: the list of leaf values (value ids) the tree stands for
+          hist      \* hist mode: the operations so far, each with the list after it
+vars == <<n, path, root, sub, list, hist>>
 
 E == [t |-> "E"]
 L(i) == [t |-> "L", i |-> i]
+V(v) == [t |-> "V", v |-> v]
 B(l, r) == [t |-> "B", l |-> l, r |-> r]
 
 RECURSIVE LP2Below(_, _)
@@ -49,23 +64,109 @@ FoldPath(p) == IF Len(p) = 0 THEN E ELSE FoldFrom(p, 2, p[1])
 RECURSIVE TrailingOnes(_)
 TrailingOnes(m) == IF m % 2 = 1 THEN 1 + TrailingOnes(m \div 2) ELSE 0
 
-\* RegularMerkleTree.Append (incremental rule)
-AppendRoot(p, m) == FoldFrom(p, 1, L(m + 1))
-AppendPathInc(p, m) ==
+\* RegularMerkleTree.Append (incremental rule); lf is the term of the new leaf
+AppendRootT(p, lf) == FoldFrom(p, 1, lf)
+AppendPathIncT(p, m, lf) ==
   LET t == TrailingOnes(m) IN
-  <<FoldFrom(SubSeq(p, 1, t), 1, L(m + 1))>> \o SubSeq(p, t + 1, Len(p))
+  <<FoldFrom(SubSeq(p, 1, t), 1, lf)>> \o SubSeq(p, t + 1, Len(p))
+AppendRoot(p, m) == AppendRootT(p, L(m + 1))
+AppendPathInc(p, m) == AppendPathIncT(p, m, L(m + 1))
 
-Init == /\ n = 0 /\ path = <<>> /\ root = E
-        /\ sub \in (IF Mode = "subsets" THEN {<<m, S>> : m \in 1..MaxSub, S \in SUBSET (1..MaxSub)} ELSE {<<0, {}>>})
-        /\ (Mode = "subsets" => (sub[2] # {} /\ sub[2] \subseteq 1..sub[1]))
+\* the same declarative root / append path over a list of values
+RECURSIVE RootOfL(_, _, _)
+RootOfL(s, lo, hi) ==
+  IF hi < lo THEN E
+  ELSE IF lo = hi THEN V(s[lo])
+  ELSE LET k == LP2Below(1, hi - lo + 1) IN B(RootOfL(s, lo, lo + k - 1), RootOfL(s, lo + k, hi))
+RECURSIVE PathHighL(_, _, _)
+PathHighL(s, m, lo) == IF m = 0 THEN <<>> ELSE LET k == LP2AtMost(1, m) IN <<RootOfL(s, lo, lo + k - 1)>> \o PathHighL(s, m - k, lo + k)
+PathDeclL(s) == Reverse(PathHighL(s, Len(s), 1))
+
+-----------------------------------------------------------------------------
+(* subset shapes (mode "subsets", lists longer than MaxSub): the leaf sets a random sample of <= 4 leaves never hits *)
+Pow2s(m) == {k \in 1..m : \E j \in 0..12 : k = 2 ^ j}
+Shapes(m) ==
+  LET P == Pow2s(m) \ {1, 2}
+      P1 == {k \in P : k + 1 <= m}
+      half == LP2Below(1, m) IN
+     {1..m}                                                              \* every leaf: a proof without sibling hashes
+  \cup {1..k : k \in P} \cup {1..(k + 1) : k \in P1}                     \* prefixes of 2^j and 2^j+1 leaves (j >= 2: the
+  \cup {(m - k + 1)..m : k \in P} \cup {(m - k)..m : k \in P1}           \* suffixes    shorter ones are sampled anyway)
+  \cup {(1..m) \ {x} : x \in {1, 2, (m + 1) \div 2, m - 1, m}}           \* all but one leaf
+  \cup {(1..half) \cup {m}, (half + 1)..m}                               \* left subtree + last leaf; the right subtree
+  \cup {{i \in 1..m : i % 2 = 1}, {i \in 1..m : i % 2 = 0}}              \* no two siblings: the longest working lists
+  \cup {{i \in 1..m : i % 4 \in {1, 2}}}                                 \* every second pair of siblings
+ShapeNs == {m \in (MaxSub + 1)..ShapeBig : m <= ShapeMax \/ \E k \in {64, 128, 256, 512, 1024} : m \in (k - 1)..(k + 1)}
+
+-----------------------------------------------------------------------------
+(* mode "hist" *)
+Special == {0, 1, 2}                 \* value ids the harness maps to the empty value, a 32-byte value and a long value
+NextFresh == 100 * (Len(hist) + 1)   \* ids of fresh values: pairwise distinct, different from the initial 11..(10+HMaxN)
+HLast == hist[Len(hist)]
+Dom == hist[1].dom                   \* "distinct": all values pairwise distinct; "mixed": repeated and special values too
+
+UpdSets(m) ==
+     {{a} : a \in 1..m}
+  \cup {{a, a + 1} : a \in 1..(m - 1)}
+  \cup {{a, m} : a \in 1..m} \cup {{1, a} : a \in 1..m}
+  \cup {1..k : k \in Pow2s(m)} \cup {(m - k + 1)..m : k \in Pow2s(m)}
+  \cup {1..m, {i \in 1..m : i % 2 = 1}}
+
+HApp(v) ==
+  /\ Len(list) < HMaxN
+  /\ list' = Append(list, v)
+  /\ root' = AppendRootT(path, V(v))
+  /\ path' = AppendPathIncT(path, Len(list), V(v))
+  /\ hist' = Append(hist, [op |-> "A", v |-> v, list |-> list'])
+
+\* kind: "fresh" new distinct values, "same" one new value for every updated leaf, "empty" the empty value, "noop" the old values
+HUpd(S, kind) ==
+  LET s == SetToSortSeq(S, <)
+      nv(k) == CASE kind = "fresh" -> NextFresh + k
+                 [] kind = "same"  -> NextFresh
+                 [] kind = "empty" -> 0
+                 [] OTHER          -> list[s[k]]
+      vals == [k \in 1..Len(s) |-> nv(k)] IN
+  /\ list' = [i \in 1..Len(list) |-> IF i \in S THEN nv(CHOOSE k \in 1..Len(s) : s[k] = i) ELSE list[i]]
+  /\ root' = RootOfL(list', 1, Len(list'))
+  /\ path' = IF RefreshPath THEN PathDeclL(list') ELSE path
+  /\ hist' = Append(hist, [op |-> "U", s |-> s, vals |-> vals, kind |-> kind, list |-> list'])
+
+HReload ==
+  /\ HLast.op # "R"
+  /\ hist' = Append(hist, [op |-> "R", list |-> list])
+  /\ UNCHANGED <<list, root, path>>
+
+\* simulation only (RandomElement): TLC evaluates every successor of a state, so the argument of an operation is drawn at random
+\* instead of being enumerated - a step has two appends, three updates and one reload to choose from
+AppVals == {NextFresh} \cup (IF Dom = "mixed" THEN Special \cup {list[i] : i \in {1, Len(list)} \cap DOMAIN list} ELSE {})
+UpdKinds == IF Dom = "mixed" THEN {"fresh", "same", "empty", "noop"} ELSE {"fresh"}
+HNext ==
+  /\ Mode = "hist" /\ Len(hist) <= HDepth
+  /\ \/ \E v \in {NextFresh, RandomElement(AppVals)} : HApp(v)
+     \/ /\ Len(list) > 0
+        /\ \E j \in 1..3 : \E S \in {RandomElement(UpdSets(Len(list)))} : \E kind \in {RandomElement(UpdKinds)} : HUpd(S, kind)
+     \/ HReload
+  /\ n' = Len(list') /\ UNCHANGED sub
+
+Init == /\ IF Mode = "hist"
+           THEN \E m \in HStart : \E dom \in {"distinct", "mixed"} :
+                   /\ list = [i \in 1..m |-> IF dom = "mixed" /\ i = m /\ m >= 3 THEN 11 ELSE 10 + i]   \* mixed: the last value = the first
+                   /\ hist = <<[op |-> "I", dom |-> dom, list |-> list]>>
+                   /\ n = m /\ path = PathDeclL(list) /\ root = RootOfL(list, 1, m)
+           ELSE n = 0 /\ path = <<>> /\ root = E /\ list = <<>> /\ hist = <<>>
+        /\ sub \in (IF Mode \in {"subsets", "both"}
+                    THEN {<<m, S>> : m \in 1..MaxSub, S \in SUBSET (1..MaxSub)} \cup {<<m, S>> : m \in ShapeNs, S \in SUBSET {}}
+                    ELSE {}) \cup (IF Mode = "subsets" THEN {} ELSE {<<0, {}>>})
+        /\ (sub[1] > 0 => ((sub[1] \in ShapeNs \/ sub[2] # {}) /\ sub[2] \subseteq 1..sub[1]))
 
 Top == IF BigN > MaxN THEN BigN ELSE MaxN
 RECURSIVE NearP2(_, _)
 NearP2(m, k) == IF k > 2 * m + 8 THEN FALSE ELSE (m >= k - 3 /\ m <= k + 2) \/ NearP2(m, 2 * k)
 Printed(m) == m <= MaxN \/ NearP2(m, 64) \/ m % 97 \in {0, 1}
-AppendLeaf == /\ Mode = "sizes" /\ n < Top
-          /\ n' = n + 1 /\ root' = AppendRoot(path, n) /\ path' = AppendPathInc(path, n) /\ UNCHANGED sub
-Next == AppendLeaf
+AppendLeaf == /\ Mode \in {"sizes", "both"} /\ sub[1] = 0 /\ n < Top
+          /\ n' = n + 1 /\ root' = AppendRoot(path, n) /\ path' = AppendPathInc(path, n) /\ UNCHANGED <<sub, list, hist>>
+Next == AppendLeaf \/ HNext
 Spec == Init /\ [][Next]_vars
 
 IncrementalIsBatch == root = RootOf(1, n)
@@ -73,7 +174,34 @@ PathIsDecl == path = PathDecl(n)
 PathReconstructsRoot == FoldPath(path) = root
 PathLength == Len(path) = Cardinality({b \in 0..14 : (n \div (2 ^ b)) % 2 = 1})
 
-Row == IF Mode = "sizes"
-       THEN ~Printed(n) \/ PrintT(<<"DUMP", ToJson([n |-> n, root |-> root, path |-> path])>>)
-       ELSE PrintT(<<"DUMP", ToJson([n |-> sub[1], s |-> SetToSortSeq(sub[2], <), root |-> RootOf(1, sub[1])])>>)
+\* hist mode: the tree object stands for `list` after every operation
+HRootIsBatch == root = RootOfL(list, 1, Len(list))
+HPathIsDecl == path = PathDeclL(list)
+
+(* leaf-value families of the sizes mode: positions that share one value, positions with the empty value, the kind of the   *)
+(* other values ("short" 6-17 bytes, "h32" 32 bytes like a transaction id, "long" like an encoded asset)                    *)
+Fams(m) ==
+  IF m = 0 \/ (m > MaxN /\ ~\E k \in {64, 128, 256, 512, 1024, 2048, 4096} : m \in (k - 1)..(k + 1)) THEN <<>>
+  ELSE << [name |-> "repeated", kind |-> "short", same |-> SetToSortSeq({1, (m + 1) \div 2, m}, <), empty |-> <<>>],
+          [name |-> "empty+h32", kind |-> "h32", same |-> <<>>, empty |-> SetToSortSeq({(m + 2) \div 3} \cup (IF m > 8 THEN {m - 1, m} ELSE {}), <)],
+          [name |-> "all-equal-long", kind |-> "long", same |-> [i \in 1..m |-> i], empty |-> <<>>] >>
+
+(* tamperings of an honest right witness (i, appendPath, witness, root) and of an honest inclusion proof.  A verdict exists    *)
+(* where the statement + injectivity of the hash decide it: the honest inputs reconstruct the root term of the list and every  *)
+(* one of them is needed for it, so a forged or dropped hash gives another term and a root other than the list's is not what   *)
+(* they reconstruct: the verifier must answer FALSE.  No verdict (the call must only return): one more hash than needed (a    *)
+(* verifier may ignore it), another position with the same hashes (may reconstruct the same term).                            *)
+Tampers == [witness |-> <<"forge-witness", "forge-path", "drop-witness", "extend-witness", "other-root", "nil-root", "empty-root", "short-root", "position">>,
+            proof   |-> <<"forge-query", "forge-sibling", "drop-sibling", "extend-sibling", "other-root", "nil-root", "empty-root", "short-root">>,
+            noverdict |-> <<"position", "extend-witness", "extend-sibling">>]
+
+Row == CASE Mode = "sizes" \/ (Mode = "both" /\ sub[1] = 0) ->
+              ~Printed(n) \/ PrintT(<<"DUMP", ToJson(IF n = 0 THEN [n |-> n, root |-> root, path |-> path, fams |-> Fams(n), tampers |-> Tampers]
+                                                      ELSE [n |-> n, root |-> root, path |-> path, fams |-> Fams(n)])>>)
+         [] Mode \in {"subsets", "both"} ->
+              IF sub[1] \in ShapeNs
+              THEN PrintT(<<"DUMP", ToJson([n |-> sub[1], shapes |-> {SetToSortSeq(S, <) : S \in Shapes(sub[1])}])>>)
+              ELSE PrintT(<<"DUMP", ToJson([n |-> sub[1], s |-> SetToSortSeq(sub[2], <), root |-> RootOf(1, sub[1])])>>)
+         [] OTHER ->
+              Len(hist) <= HDepth \/ PrintT(<<"DUMP", ToJson([hist |-> hist])>>)
 =============================================================================
